@@ -362,6 +362,16 @@ class World:
                         r.violation(f'C06/undescribed-accessible-reachable/{req[0]}', f'{req} -> {st} {str(rep)[:100]}; driver events {events[n0:][:2]}', case)
                         return
             if not ms['export']:
+                # the short forms that stand for the main value / the target of a module
+                for req in (('read', ms['name'], None), ('change', ms['name'], 1), ('read', ms['name'] + ':', None), ('change', ms['name'] + ':', 1)):
+                    n0 = len(events)
+                    del conn.out[:]
+                    st, rep = self.ask(disp, conn, req)
+                    r.count('undescribed_probes')
+                    r.case(('undescribed', req[0], 'bare-module', st), True)
+                    if st == 'ok' or len(events) != n0 or conn.out:
+                        r.violation(f'C06/undescribed-accessible-reachable/{req[0]}/bare-module-specifier', f'{req} -> {st} {str(rep)[:100]}; driver events {events[n0:][:2]}', case)
+                        return
                 del conn.out[:]
                 st, rep = self.ask(disp, conn, ('activate', ms['name'], None))
                 r.count('undescribed_probes')
